@@ -1450,6 +1450,13 @@ def c07_execs(r, quick, rec):
                 # decision vectors and other cost functors: per-call buffers must be re-initialised by every call
                 wss = (0, 0, 3, 3) if k % 2 else (3, 0, 3, 0)
                 for e in range(3 if quick else 4):
+                    # between evaluations on the same workspaces the configuration changes: more / fewer integration steps, another
+                    # energy weight (tables sized or filled for the previous configuration must not survive)
+                    if e >= 1 and k % 2 == 0:
+                        K2 = {1: 2, 2: 3, 3: 8, 8: 3, 64: 8}[K] if e == 1 else {1: 3, 2: 8, 3: 2, 8: 2, 64: 3}[K]
+                        if N * D * K2 <= 96:
+                            cmds.append({"op": "set_steps", "obj": 1, "K": K2})
+                        cmds.append({"op": "set_energy", "obj": 1, "rho": gen.hx((0.5, 2.0, 0.0)[(k + e) % 3])})
                     cmds.append({"op": "evaluate", "obj": 1, "x": gen.hv(p.x(r)), "ws": wss[e], "costs": gen.cost_params(r),
                                  "overload": 3 if (k + e) % 4 else 2, "rec": bool(rec and K <= 8 and e == 0),
                                  "gout": ("fresh", "dirty", "reuse", "big", "reuse")[(k + e) % 5]})
